@@ -6,7 +6,7 @@ COQ = os.path.join(VERIF, 'coq')
 HARNESS = os.path.join(VERIF, 'harness')
 BUILD = os.path.join(VERIF, 'build')
 OUT = os.path.join(VERIF, 'out')
-REPO = '/repo'
+REPO = os.environ.get('VERIF_REPO', '/repo')
 GOENV = dict(os.environ, GOFLAGS='-mod=mod', GOPROXY='off', GOSUMDB='off', GOTOOLCHAIN='local',
              CGO_ENABLED=os.environ.get('CGO_ENABLED', '0'))
 
@@ -195,6 +195,8 @@ def chunks(l, n):
 def build_harness(race=False):
     """rebuild the harness binary against /repo's CURRENT working tree, hooks on"""
     with Lock('harness'):
+        if REPO != '/repo':   # scratch worktree given by VERIF_REPO (development of checks only)
+            sh(['go', 'mod', 'edit', '-replace', 'github.com/ThreeDotsLabs/watermill=' + REPO], cwd=HARNESS, env=GOENV)
         shutil.copyfile(os.path.join(REPO, 'go.sum'), os.path.join(HARNESS, 'go.sum'))
         extra = os.path.join(HARNESS, 'go.sum.extra')
         if os.path.exists(extra):
